@@ -180,6 +180,10 @@ func mkRecords(r *rand.Rand, n int, fastq bool, withTax bool) []R {
 		if withTax {
 			rec.Taxid = taxidsForRecords[r.Intn(len(taxidsForRecords))]
 		}
+		if r.Intn(4) == 0 {
+			// an attribute that is present with the JSON value null (or false, or 0): present all the same
+			rec.Extra = map[string]any{"flag": []any{nil, nil, false, 0}[r.Intn(4)]}
+		}
 		if fastq {
 			q := make([]byte, l)
 			for j := range q {
